@@ -188,6 +188,8 @@ func jobsFor(prop, tier string) []Job {
 			add("enum", fmt.Sprintf("%s.n%d", c, n), 10, map[string]string{"c": c}, map[string]int{"n": n, "u": 3, "maxn": n})
 		}
 		add("enum", fmt.Sprintf("linkedhashset.u%d", n), 5, map[string]string{"c": "linkedhashset"}, map[string]int{"u": n, "maxn": n})
+		// members that are not equal to themselves (NaN): a result built by copying and deleting cannot delete them
+		add("enum", "linkedhashset.float", 5, map[string]string{"c": "linkedhashset", "elem": "float"}, map[string]int{"maxn": 4})
 		// large receivers (data-independent elements, fixed predicate / function families): results
 		// past every growth threshold of the result container
 		dn := pick(36, 70)
@@ -444,6 +446,11 @@ func typedJobs(group string, add func(kind, id string, w int, s map[string]strin
 	for _, el := range els {
 		switch group {
 		case "trees":
+			if el == "i8" {
+				for _, c := range []string{"rbt", "avl", "treemap", "btree"} {
+					add("anysys", c+".time", 3, map[string]string{"c": c, "elem": "time"}, map[string]int{"u": 5, "m": 3})
+				}
+			}
 			for _, c := range []string{"rbt", "avl", "treemap", "btree"} {
 				add("anysys", fmt.Sprintf("%s.New.%s", c, el), 3, map[string]string{"c": c, "ctor": "default", "elem": el}, map[string]int{"u": 5, "m": 3})
 			}
@@ -454,6 +461,9 @@ func typedJobs(group string, add func(kind, id string, w int, s map[string]strin
 				add("anysys", c+"."+el, 3, map[string]string{"c": c, "elem": el}, map[string]int{"u": 4})
 			}
 		case "bidi":
+			if el == "i8" { // once: time.Time keys and values under the library's own utils.TimeComparator
+				add("anysys", "treebidimap.time", 3, map[string]string{"c": "treebidimap", "elem": "time"}, map[string]int{"u": 4})
+			}
 			add("anysys", "treebidimap.New."+el, 3, map[string]string{"c": "treebidimap", "ctor": "default", "elem": el}, map[string]int{"u": 3})
 			add("anysys", "treebidimap.rev.coarse."+el, 3, map[string]string{"c": "treebidimap", "cmp": "rev", "vcmp": "coarse", "elem": el}, map[string]int{"u": 3, "vu": 4})
 			add("anysys", "hashbidimap."+el, 3, map[string]string{"c": "hashbidimap", "elem": el}, map[string]int{"u": 3})
@@ -464,6 +474,9 @@ func typedJobs(group string, add func(kind, id string, w int, s map[string]strin
 		case "sets":
 			for _, c := range []string{"hashset", "linkedhashset"} {
 				add("anysys", c+"."+el, 3, map[string]string{"c": c, "elem": el}, map[string]int{"u": 4})
+			}
+			if el == "i8" {
+				add("anysys", "treeset.time", 3, map[string]string{"c": "treeset", "elem": "time"}, map[string]int{"u": 5})
 			}
 			add("anysys", "treeset.New."+el, 3, map[string]string{"c": "treeset", "ctor": "default", "elem": el}, map[string]int{"u": 5})
 			add("anysys", "treeset.rev."+el, 3, map[string]string{"c": "treeset", "cmp": "rev", "elem": el}, map[string]int{"u": 4})
